@@ -540,6 +540,14 @@ func (r *resolver) resolveRef(rs *Resolved, s *Schema, ref string) (_ *Schema, d
 		// TODO: support that case.
 		if lrs := r.loaded[fraglessRefURI.String()]; lrs != nil {
 			referencedSchema = lrs.root
+			// The document was loaded on behalf of another document (or is an
+			// ancestor in a reference cycle), so its resolvedInfos may not be in rs
+			// yet; the anchor lookup below needs them.
+			for s, i := range lrs.resolvedInfos {
+				if rs.resolvedInfos[s] == nil {
+					rs.resolvedInfos[s] = i
+				}
+			}
 		} else {
 			// Try to load the schema.
 			ls, err := r.opts.Loader(fraglessRefURI)
